@@ -1,6 +1,7 @@
 package sim
 
 import (
+	"strings"
 	"fmt"
 
 	"github.com/hugelgupf/p9/p9"
@@ -41,6 +42,7 @@ func c01Raw(rcx *RunCtx) {
 		fs := simfs.New()
 		fs.WalkGetAttrENOSYS = wga
 		c04Tree(fs)
+		fs.MkPath("/" + strings.Repeat("w/", 40))
 		g := &gen{ch: simrt.Choose, extreme: true}
 		// every successful backend result is whatever the generator says
 		script := func(c *simfs.Call) {
@@ -77,7 +79,22 @@ func c01Raw(rcx *RunCtx) {
 		fs.Script = script
 		for i := 0; i < n && len(rcx.Findings) == 0; i++ {
 			var m rc.Message
-			switch g.ch(20) {
+			longWalk := 0
+			switch g.ch(22) {
+			case 20, 21:
+				// name lists of 1..40 elements along a chain of directories
+				// that exists: every name must reach the backend and every
+				// QID must come back
+				longWalk = []int{1, 2, 15, 16, 17, 33, 40}[g.ch(7)]
+				names := make([]string, longWalk)
+				for k := range names {
+					names[k] = "w"
+				}
+				if g.ch(2) == 0 {
+					m = &rc.Twalk{Fid: 0, NewFid: uint32(30 + g.ch(3)), Names: names}
+				} else {
+					m = &rc.Twalkgetattr{Fid: 0, NewFid: uint32(30 + g.ch(3)), Names: names}
+				}
 			case 0, 1:
 				m = &rc.Tgetattr{Fid: 1, Mask: (maskBase + uint64(i)) % (1 << 14)}
 			case 2, 3:
@@ -130,6 +147,24 @@ func c01Raw(rcx *RunCtx) {
 			if len(trace) < 8 {
 				trace = append(trace, trunc(rc.String(m), 100)+" -> "+trunc(rc.String(rep), 80))
 			}
+			if longWalk > 0 {
+				got := 0
+				for _, cl := range calls {
+					if cl.Method == "Walk" || cl.Method == "WalkGetAttr" {
+						got += len(cl.Names)
+					}
+				}
+				nq := -1
+				switch r := rep.(type) {
+				case *rc.Rwalk:
+					nq = len(r.QIDs)
+				case *rc.Rwalkgetattr:
+					nq = len(r.QIDs)
+				}
+				if got != longWalk || nq != longWalk {
+					rcx.Find("C01", "name-list-not-carried", rc.TypeName(m.MsgType()), "a walk of %d names along existing directories: the backend was asked for %d of them and the reply is %s", longWalk, got, trunc(rc.String(rep), 120))
+				}
+			}
 			// (1) T-direction
 			if d := checkRequestArgs(m, calls); d != "" {
 				rcx.Find("C01", "request-field-changed", rc.TypeName(m.MsgType()), "%s: %s", trunc(rc.String(m), 200), d)
@@ -162,6 +197,8 @@ func c01Fake(rcx *RunCtx) {
 	ver := 7 - p.Choose(8)
 	nops := 15 + p.Choose(40)
 	seg := []int{simnet.SegWhole, simnet.SegRandom}[p.Choose(2)]
+	ncallers := 1 + p.Choose(3)
+	errPct := []int{0, 0, 30}[p.Choose(3)]
 	rcx.Label = "client <-> fake server"
 	cw := &cliWorld{rcx: rcx, prop: "C01"}
 	rcx.Res = simrt.Run(cfg, rcx.Sched, func() {
@@ -169,6 +206,7 @@ func c01Fake(rcx *RunCtx) {
 		cw.Fake = fake
 		fake.Version = versionStr(ver)
 		fake.Net.S2C.Seg = seg
+		fake.ErrPct = errPct
 		simrt.GoNamed("fakesrv", func() { fake.Serve(nil) })
 		cl, err := p9.NewClient(fake.Net.A, p9.WithMessageSize(1<<16))
 		if err != nil {
@@ -184,16 +222,29 @@ func c01Fake(rcx *RunCtx) {
 			return
 		}
 		cw.hold(root)
-		files := []p9.File{root}
-		for i := 0; i < nops; i++ {
-			cw.doOp(simrt.Choose, &files, false)
+		// 1-3 callers at once: what a reply carries belongs to its request,
+		// also when several replies (and several Rlerrors) are being decoded
+		done := 0
+		for i := 0; i < ncallers; i++ {
+			simrt.GoNamed(fmt.Sprintf("caller%d", i), func() {
+				simrt.Current().Role = "caller"
+				files := []p9.File{root}
+				for k := 0; k < nops/ncallers+1; k++ {
+					cw.inCall.Set(simrt.Current(), len(fake.Reqs))
+					cw.doOp(simrt.Choose, &files, false)
+					cw.inCall.Del(simrt.Current())
+				}
+				done++
+			})
 		}
+		simrt.Block("callers done", func() bool { return done == ncallers })
+		simrt.Join()
 		cw.shutdown()
 		rcx.Findings = append(rcx.Findings, fake.Findings...)
 		rcx.Findings = append(rcx.Findings, fake.Mon.Findings...)
 	})
 	rcx.Count("fake.calls", cw.ncalls)
-	rcx.Sample = map[string]interface{}{"direction": "real client <-> fake server", "version": ver, "calls": nops}
+	rcx.Sample = map[string]interface{}{"direction": "real client <-> fake server", "version": ver, "calls": nops, "concurrent_callers": ncallers, "server_error_pct": errPct}
 	finishRun(rcx)
 }
 
@@ -212,7 +263,7 @@ func init() {
 			}
 		},
 		Quick: 48000, Thorough: 3000000, QuickSecs: 60, ThorSecs: 1500,
-		Rule:  fmt.Sprintf("three sub-engines in rotation. (a) raw peer -> real server: requests of 26 T-types encoded by the independent codec with boundary-biased field values (0, 1, 2^k+-1, max, NOFID/NoUID, names of 1/255/4000 bytes with NUL and high bytes, payloads 0/1/255/256/4096/60000 bytes), getattr/setattr masks walking through ALL 2^14 / 2^9 combinations as the run index advances; the backend's results are scripted with the same generators; oracle: backend arguments = request fields (modulo 07777 on permission fields), and the R-frame decoded by the independent codec = what the backend returned (Rreaddir cut to the whole entries within count). (b) real client -> fake server: 26 client operations; oracle: every T-frame parses exactly per the spec table, returned values = the nonce-derived full-range fields the fake server encoded. (c) closed loop real client <-> real server with extreme values (C03's oracle). The wire monitor checks size = frame length, type byte per spec table (%d types) and exact layout on every connection of every run of every engine. Types not reachable through the public API (Rauth; Rflush/Rxattrcreate on the client) are outside.", 65),
+		Rule:  fmt.Sprintf("three sub-engines in rotation. (a) raw peer -> real server: requests of 26 T-types encoded by the independent codec with boundary-biased field values (0, 1, 2^k+-1, max, NOFID/NoUID, names of 1/255/4000 bytes with NUL and high bytes, payloads 0/1/255/256/4096/60000 bytes), getattr/setattr masks walking through ALL 2^14 / 2^9 combinations as the run index advances; the backend's results are scripted with the same generators; oracle: backend arguments = request fields (modulo 07777 on permission fields), and the R-frame decoded by the independent codec = what the backend returned (Rreaddir cut to the whole entries within count). (b) real client -> fake server: 26 client operations from 1-3 concurrent callers, in a third of the runs 30% of the requests answered with nonce-derived Rlerrors; oracle: every T-frame parses exactly per the spec table, returned values = the nonce-derived full-range fields the fake server encoded. (c) closed loop real client <-> real server with extreme values (C03's oracle). The wire monitor checks size = frame length, type byte per spec table (%d types) and exact layout on every connection of every run of every engine. Types not reachable through the public API (Rauth; Rflush/Rxattrcreate on the client) are outside.", 65),
 		Assume: []string{"the independent codec (refcodec) was written from the 9P2000.L description and the gVisor extension layout; a disagreement is investigated against the spec text, not resolved in p9's favour"},
 		Real:   []string{"p9 encode/decode of all message types", "p9.Client", "p9.Server"},
 		Stub:   []string{"transport (simnet)", "raw 9P peer and fake server (refcodec)", "backend (simfs, scripted results)"},
